@@ -313,6 +313,10 @@ class InstructionNodeCreator:
             None  # can be italic on or italic off as we only support italics
         )
         self._position_tracer = position_tracker
+        # a mid-row code always occupies one cell of the row; the cells for
+        # which no space was added to the text (see interpret_command) are
+        # counted here, so a backspace erases such a cell, not a character
+        self._unwritten_mid_row_cells = 0
 
     def is_empty(self):
         """Whether any text was added to the buffer"""
@@ -327,6 +331,7 @@ class InstructionNodeCreator:
             # nothing displayable (e.g. the filler word 8080): no node needed
             return
 
+        self._unwritten_mid_row_cells = 0
         current_position = self._position_tracer.get_current_position()
 
         # get or create a usable node
@@ -390,6 +395,8 @@ class InstructionNodeCreator:
 
         if command == "94a1":
             self.handle_backspace("94a1")
+        elif command not in MID_ROW_CODES:
+            self._unwritten_mid_row_cells = 0
 
         if command in BACKGROUND_COLOR_CODES:
             # Since these codes are optional, they must be preceded
@@ -466,6 +473,8 @@ class InstructionNodeCreator:
                 # need to close italics tag, add a space
                 # to the end of the previous text node
                 prev_text_node.text = prev_text_node.text + " "
+        elif command in MID_ROW_CODES and command not in PAC_TAB_OFFSET_COMMANDS:
+            self._unwritten_mid_row_cells += 1
 
     def _update_positioning(self, command):
         """Sets the positioning information to use for the next nodes
@@ -543,6 +552,10 @@ class InstructionNodeCreator:
         """
         Move cursor back one position and delete that character
         """
+        if word == "94a1" and self._unwritten_mid_row_cells:
+            # the cell before the cursor is the one taken by a mid-row code
+            self._unwritten_mid_row_cells -= 1
+            return
         node = self.get_previous_text_node()
         # in case of no previous text nodes or
         # if the backspace is required while no character
